@@ -1,0 +1,80 @@
+//! Verification hooks (compiled only with `--cfg ragc_verif`).
+//!
+//! A tiny tracer registry used by the external conformance harness: `emit` records one event
+//! per specification action at its linearisation point, `yield_point` lets an installed
+//! scheduler perturb thread interleavings. Everything is a no-op unless a sink / scheduler
+//! has been installed, and nothing in this module exists in a normal build.
+
+use std::sync::atomic::{AtomicU64, Ordering};
+use std::sync::{Arc, RwLock};
+
+/// One recorded event. `seq` is a global sequence number; for events emitted while holding
+/// a lock, the number is taken under that lock, so the order of events protected by the same
+/// lock is the lock order.
+#[derive(Debug, Clone)]
+pub struct Event {
+    pub seq: u64,
+    pub tid: u64,
+    pub kind: &'static str,
+    pub nums: Vec<(&'static str, i64)>,
+    pub text: Vec<(&'static str, String)>,
+}
+
+pub type Sink = Arc<dyn Fn(Event) + Send + Sync>;
+pub type Scheduler = Arc<dyn Fn(&'static str) + Send + Sync>;
+
+static SINK: RwLock<Option<Sink>> = RwLock::new(None);
+static SCHED: RwLock<Option<Scheduler>> = RwLock::new(None);
+static SEQ: AtomicU64 = AtomicU64::new(0);
+static NEXT_TID: AtomicU64 = AtomicU64::new(0);
+
+thread_local! {
+    static TID: u64 = NEXT_TID.fetch_add(1, Ordering::SeqCst);
+}
+
+/// Small per-thread id (assigned on first use).
+pub fn thread_id() -> u64 {
+    TID.with(|t| *t)
+}
+
+/// Install (or remove, with `None`) the event sink.
+pub fn install(sink: Option<Sink>) {
+    *SINK.write().unwrap() = sink;
+}
+
+/// Install (or remove) the scheduler consulted at yield points.
+pub fn install_scheduler(s: Option<Scheduler>) {
+    *SCHED.write().unwrap() = s;
+}
+
+pub fn enabled() -> bool {
+    SINK.read().unwrap().is_some()
+}
+
+/// Emit an event with numeric fields.
+pub fn emit(kind: &'static str, nums: &[(&'static str, i64)]) {
+    emit_text(kind, nums, &[]);
+}
+
+/// Emit an event with numeric and text fields.
+pub fn emit_text(kind: &'static str, nums: &[(&'static str, i64)], text: &[(&'static str, String)]) {
+    let sink = SINK.read().unwrap().clone();
+    if let Some(s) = sink {
+        let ev = Event {
+            seq: SEQ.fetch_add(1, Ordering::SeqCst),
+            tid: thread_id(),
+            kind,
+            nums: nums.to_vec(),
+            text: text.to_vec(),
+        };
+        s(ev);
+    }
+}
+
+/// A point at which an installed scheduler may delay the calling thread.
+pub fn yield_point(site: &'static str) {
+    let s = SCHED.read().unwrap().clone();
+    if let Some(f) = s {
+        f(site);
+    }
+}
